@@ -44,6 +44,10 @@ type Case struct {
 	SP  *SPConf  `json:"sp,omitempty"`
 	IDP *IDPConf `json:"idp,omitempty"`
 
+	// LocalMin: the process's local zone (time.Local) is UTC+LocalMin minutes while the case is judged: text forms
+	// mean the same instant wherever the process runs (zone-less dateTime is UTC)
+	LocalMin int `json:"local_min,omitempty"`
+
 	Entity   *saml.EntityDescriptor   `json:"entity,omitempty"`
 	Entities *saml.EntitiesDescriptor `json:"entities,omitempty"`
 }
@@ -655,6 +659,14 @@ func genEntities(t *rapid.T, depth int) *saml.EntitiesDescriptor {
 }
 
 func gen(t *rapid.T) Case {
+	c := gen0(t)
+	if c.Kind != "dur" && c.Kind != "durstr" && rapid.IntRange(0, 2).Draw(t, "local?") == 0 {
+		c.LocalMin = rapid.SampledFrom([]int{-720, -480, -300, -1, 1, 60, 330, 540, 840}).Draw(t, "localmin")
+	}
+	return c
+}
+
+func gen0(t *rapid.T) Case {
 	switch rapid.IntRange(0, 19).Draw(t, "kind") {
 	case 0, 1, 2, 3, 4, 5:
 		return Case{Kind: "dur", Dur: genDur(t)}
@@ -1164,6 +1176,19 @@ func checkLibMeta(x *saml.EntityDescriptor, classes []string) pbt.Result {
 }
 
 func check(c Case) pbt.Result {
+	if c.LocalMin != 0 && c.LocalMin > -900 && c.LocalMin < 900 {
+		old := time.Local
+		time.Local = time.FixedZone("harness-local", c.LocalMin*60)
+		defer func() { time.Local = old }()
+	}
+	res := check1(c)
+	if c.LocalMin != 0 && !res.Skip {
+		res.Classes = append(res.Classes, "process-local-zone-not-utc")
+	}
+	return res
+}
+
+func check1(c Case) pbt.Result {
 	switch c.Kind {
 	case "dur":
 		return checkDur(c.Dur)
@@ -1399,13 +1424,24 @@ func enumZones(_ string, emit func(Case)) {
 			}
 		}
 	}
+	// the documented text forms, and instants, under every hour offset of the process's own zone
+	for lm := -12 * 60; lm <= 14*60; lm += 60 {
+		if lm == 0 {
+			continue
+		}
+		for _, txt := range []string{"2020-06-15T12:00:00", "2020-06-15T12:00:00.5", "2020-06-15T23:59:59.999", "2020-01-01T00:00:00", "2020-06-15T12:00:00Z", "2020-06-15T12:00:00.123456789Z", "2020-06-15T12:00:00+05:30", "2020-06-15T12:00:00.25-08:00"} {
+			emit(Case{Kind: "lex", Str: txt, Expect: "accept", LexKind: "documented-form-under-local-zone", LocalMin: lm})
+		}
+		emit(Case{Kind: "instant", Sec: 1592222400, Nsec: 123_456_789, ZoneMn: 0, LocalMin: lm})
+		emit(Case{Kind: "instant", Sec: 1592222400, Nsec: 999_500_000, ZoneMn: lm, LocalMin: lm})
+	}
 }
 
 var prop = &pbt.Prop[Case]{
 	ID: "C15",
 	Rule: "cases: rapid draws over {int64 durations by boundary class, grammar-generated xsd:duration strings, instants in years 1..9999 at ns resolution x zone, " +
 		"accepted / skeleton-broken lexical dateTime forms, SP and IdP configurations (library metadata), arbitrary EntityDescriptor / EntitiesDescriptor values, each marshalled through a pointer and by value (same bytes, same re-parse)}, " +
-		"plus exhaustive enumerations (duration boundary classes, microsecond grid below 1 s, millisecond grid, all quarter-hour zone offsets). " +
+		"plus exhaustive enumerations (duration boundary classes, microsecond grid below 1 s, millisecond grid, all quarter-hour zone offsets, the documented forms under every hour offset of the process's local zone). " +
 		"non-trivial: duration with non-zero sub-second part, a carry or |d|>=2^62; instant with sub-millisecond digits or non-UTC zone; every lexical-form, string and metadata case. " +
 		"distinct: sha256 of the JSON case.",
 	Gen:   gen,
